@@ -415,7 +415,20 @@ class Orchestrator:  # thailint: ignore[srp]
         The section is named after the rule id prefix, spelled with hyphens or underscores
         (plus the documented alternative section names).
         """
-        return any(section.get("enabled") is False for section in self._rule_sections(rule.rule_id))
+        sections = self._rule_sections(rule.rule_id)
+        if any(section.get("enabled") is False for section in sections):
+            return True
+        # A sub-section named after the rule switches that rule alone
+        # (performance: {string-concat-loop: {enabled: false}})
+        sub_rule = rule.rule_id.partition(".")[2]
+        if not sub_rule:
+            return False
+        for section in sections:
+            for key in dict.fromkeys((sub_rule, sub_rule.replace("-", "_"))):
+                sub_section = section.get(key)
+                if isinstance(sub_section, dict) and sub_section.get("enabled") is False:
+                    return True
+        return False
 
     def _rule_sections(self, rule_id: str) -> list[dict]:
         """Configuration sections of the linter a rule id belongs to (every accepted spelling)."""
